@@ -637,13 +637,14 @@ func runC04(e *Engine, r *Report, tier string) {
 		"R1 path ledger: on every success path of a routine that calls the bank keeper with a module account, each coin that is minted is paid out and each coin that is burned was collected on that path (module escrow unchanged when supply changes), all operations use one module account and one holder, and every amount is the amount of the routine's coin parameter; a success path without any operation is accepted only when the coin is FX, is not the representation the routine converts, or the test is on the coin's own amount. " +
 		"R2/R3 inverse agreement: every routine that releases value from a module account (mint or module->account) has, in the same package, a routine that undoes it for every token kind (FX, module-owned pair, externally-owned pair) and conversion direction: branch conditions are interpreted over that finite configuration space and the supply and holder effects of each pair of paths must cancel; a releasing routine with no inverse is a second, unproved implementation of deposit/refund. " +
 		"R4 holder agreement: coins credited to an account by a crediting routine are later debited only from that account (or after an explicit transfer to the debited account). " +
-		"R5 escrowed amount = recorded in-flight amount at creation of pool entries and outgoing bridge calls. R6 imports the refund-amount, fee-increase amount and same-token obligations decided under C05. " +
+		"R5 escrowed amount = recorded in-flight amount at creation of pool entries and outgoing bridge calls. R6 imports the refund-amount, fee-increase amount and same-token obligations decided under C05. R7 composite conversions (functions chaining two value routines): per success path the holder effects of the chained routines — taken from their verified signatures — cancel on every intermediate representation and leave exactly the consumed or the returned coin, for one holder. " +
 		"Not decided: balances and supply at run time over histories, loops (routines with loops are only subject to R3), the bank and erc20 keepers' own behaviour, the migration of escrow held by earlier versions."
 	r.Rule("R1", "per success path: mint => paid out, burn => collected; one module account, one holder, one amount", 6, "routines with own bank-module operations")
 	r.Rule("R2", "releasing routine has an inverse routine for every token kind and direction", 4, "routines with own mint / module->account")
 	r.Rule("R3", "no releasing routine outside the inverse-agreement proof", 1, "same set as R2")
 	r.Rule("R4", "credited account == debited account for one flow of coins", 5, "functions that credit and then debit the same coins")
 	r.Rule("R5", "escrowed amount == recorded in-flight amount", 2, "creation of 0x18 / 0x48 records")
+	r.Rule("R7", "composite conversions: intermediate representations cancel; net effect is the consumed / returned coin; one holder", 2, "functions chaining two value routines")
 	r.Rule("R6", "refund amount, fee-increase amount and token (C05.R3/R5)", 3, "C05 obligations")
 	r.Assume("A1: the token pair stored for a base denom has owner MODULE or EXTERNAL (x/erc20 RegisterNativeCoin / RegisterNativeERC20 are the only writers)")
 	r.Assume("A2: FX has no alias denominations: the bridge denom of FX is FX (types/metadata.go GetFXMetaData carries no aliases; ManyToOne returns FX for FX)")
@@ -826,6 +827,7 @@ func runC04(e *Engine, r *Report, tier string) {
 		r.Fail("R2", "releasing-routines", "", "UNRESOLVED-ANCHOR: no routine releases value from a module account")
 	}
 
+	e.c04Composite(r, routines)
 	e.c04Holder(r)
 	e.c04Recorded(r)
 
@@ -1329,5 +1331,191 @@ func (e *Engine) c04Recorded(r *Report) {
 	}
 	if n == 0 {
 		r.Fail("R5", "creation-sites", "", "UNRESOLVED-ANCHOR: no function both collects coins and builds an in-flight token record")
+	}
+}
+
+// ---------------------------------------------------------------------------------------------------------------------
+// R7: composite conversions
+// ---------------------------------------------------------------------------------------------------------------------
+
+type routineSig struct {
+	coinIdx, holderIdx int
+	coinDelta          int
+	targetDelta        int
+	targetDenomIdx     int // parameter index of the target denom, -1 if none / local
+}
+
+// sigOf: the uniform holder effect of a value routine over its operating success paths, or ok=false.
+func (e *Engine) sigOf(vr *valueRoutine) (routineSig, bool) {
+	sig := routineSig{coinIdx: -1, holderIdx: -1, targetDenomIdx: -1}
+	if vr.HasLoop || vr.CoinPar == "" || len(vr.HoldKeys) != 1 {
+		return sig, false
+	}
+	var hk string
+	for k := range vr.HoldKeys {
+		hk = k
+	}
+	for i, p := range vr.Fn.Params {
+		if p.Name() == vr.CoinPar {
+			sig.coinIdx = i
+		}
+		if "P:"+p.Name() == hk {
+			sig.holderIdx = i
+		}
+	}
+	if sig.coinIdx < 0 || sig.holderIdx < 0 {
+		return sig, false
+	}
+	first := true
+	cd, ca := "P:"+vr.CoinPar+".Denom", "P:"+vr.CoinPar+".Amount"
+	for _, p := range vr.Paths {
+		if len(p.Events) == 0 {
+			continue
+		}
+		c, t, td := 0, 0, ""
+		for _, ev := range p.Events {
+			d := 0
+			switch ev.Kind {
+			case "in":
+				d = -1
+			case "out":
+				d = 1
+			default:
+				continue
+			}
+			for _, x := range ev.Coins {
+				switch {
+				case x.Denom == cd && x.Amt == ca:
+					c += d
+				case x.Amt == ca:
+					t += d
+					td = x.Denom
+				default:
+					return sig, false
+				}
+			}
+		}
+		tdi := -1
+		for i, q := range vr.Fn.Params {
+			if td == "P:"+q.Name() {
+				tdi = i
+			}
+		}
+		if first {
+			sig.coinDelta, sig.targetDelta, sig.targetDenomIdx = c, t, tdi
+			first = false
+		} else if sig.coinDelta != c || sig.targetDelta != t || sig.targetDenomIdx != tdi {
+			return sig, false
+		}
+	}
+	return sig, !first
+}
+
+func (e *Engine) c04Composite(r *Report, routines []*valueRoutine) {
+	sigs := map[*ssa.Function]routineSig{}
+	for _, vr := range routines {
+		if sg, ok := e.sigOf(vr); ok {
+			sigs[vr.Fn] = sg
+		}
+	}
+	n := 0
+	for _, fn := range e.Funcs {
+		if fn.Parent() != nil || !strings.HasSuffix(fnPkgPath(fn), "x/crosschain/keeper") {
+			continue
+		}
+		if _, isRoutine := sigs[fn]; isRoutine {
+			continue
+		}
+		cnt := 0
+		allCalls(fn, func(c ssa.CallInstruction) {
+			if f := calleeOf(c); f != nil {
+				if _, ok := sigs[f]; ok {
+					cnt++
+				}
+			}
+		})
+		if cnt < 2 {
+			continue
+		}
+		paths, loop := successPaths(fn)
+		k := e.FnKey(fn) + " composite"
+		pos := e.Pos(fn.Pos())
+		if loop || len(paths) == 0 {
+			r.Note("R7: %s chains value routines inside a loop; not decided", e.FnKey(fn))
+			continue
+		}
+		n++
+		var ownCoin *coinTerm
+		for _, p := range fn.Params {
+			if isCoinType(p.Type()) {
+				t := coinTerm{"P:" + p.Name() + ".Denom", "P:" + p.Name() + ".Amount"}
+				ownCoin = &t
+			}
+		}
+		bad := ""
+		for _, p := range paths {
+			net := map[coinTerm]int{}
+			holders := map[string]bool{}
+			used := 0
+			for _, c := range p.Calls {
+				f := calleeOf(c)
+				if f == nil {
+					continue
+				}
+				sg, ok := sigs[f]
+				if !ok {
+					continue
+				}
+				used++
+				args := c.Common().Args
+				ct := coinTermOf(args[sg.coinIdx])
+				holders[addrKey(args[sg.holderIdx])] = true
+				net[ct] += sg.coinDelta
+				if sg.targetDelta != 0 {
+					tt := coinTerm{"ret:" + vkey(c.(ssa.Value), 0), ct.Amt}
+					if sg.targetDenomIdx >= 0 {
+						tt.Denom = vkey(args[sg.targetDenomIdx], 0)
+					}
+					net[tt] += sg.targetDelta
+				}
+			}
+			if used == 0 {
+				continue
+			}
+			if len(holders) > 1 {
+				bad = "the chained routines act on different accounts: " + strings.Join(keysOf(holders), ", ")
+			}
+			var left []string
+			okNet := false
+			nz := 0
+			for t, d := range net {
+				if d == 0 {
+					continue
+				}
+				nz++
+				left = append(left, fmt.Sprintf("%+d %s", d, t))
+				if d == -1 && ownCoin != nil && t == *ownCoin {
+					okNet = true
+				}
+				if d == 1 && p.Ret != nil && len(p.Ret.Results) > 0 && isCoinType(p.Ret.Results[0].Type()) {
+					rt := coinTermOf(p.Ret.Results[0])
+					if rt == t || strings.HasPrefix(t.Denom, "ret:") {
+						okNet = true
+					}
+				}
+			}
+			sort.Strings(left)
+			if nz != 1 || !okNet {
+				bad = "net effect on the holder over a success path is {" + strings.Join(left, ", ") + "}: it should be exactly the coin consumed or the coin returned, with every intermediate representation cancelling"
+			}
+		}
+		if bad != "" {
+			r.Fail("R7", k, pos, bad)
+		} else {
+			r.Ok("R7", k, pos, fmt.Sprintf("%d success paths: intermediate representations cancel, one holder", len(paths)))
+		}
+	}
+	if n == 0 {
+		r.Fail("R7", "composites", "", "UNRESOLVED-ANCHOR: no function chains two value routines")
 	}
 }
